@@ -99,11 +99,11 @@ def thunder_protection(
         async def _wrapper(*args, **kwargs):
             _key = get_cache_key(func, _key_template, args, kwargs)
             if _key in tasks:
-                return await tasks[_key]
+                return await asyncio.shield(tasks[_key])
             task = asyncio.create_task(func(*args, **kwargs))
             tasks[_key] = task
             task.add_done_callback(partial(done_callback, _key))
-            return await task
+            return await asyncio.shield(task)
 
         return _wrapper  # type: ignore[return-value]
 
